@@ -26,8 +26,9 @@ from vlib import OkV, REPO, ensure_repo_on_path
 
 LEVEL = 'translation_validation'
 RULE = ('modules: tools/gen/irgen.py (SAFE_FEATURES + copyblob + extern) extended by tools/props/c02_gen.py with '
-        'triangles/empty-block chains in front of phis, self tail calls, store/CopyBlob/load mixes, cjmp on constants and '
-        'x+0 / 0+x / x*1 / (y+c1)+c2 shapes; every module is transformed by each of the 9 pass classes alone, by random '
+        'triangles/empty-block chains in front of phis, self tail calls, store/CopyBlob/load mixes, cjmp on constants, '
+        'x+0 / 0+x / x*1 / (y+c1)+c2 shapes, twin operations on the same operands and store/call/load on a global the '
+        'callee writes; every module is transformed by each of the 9 pass classes alone, by random '
         'pass sequences and by api.optimize levels; every function is executed before/after on 6 argument vectors '
         '(boundary values + random) by tools/irsem_py.py. distinct non-trivial = (module, transformation) pairs where the '
         'transformation changed the printed module and at least one argument vector ran to completion on the original '
@@ -68,6 +69,8 @@ def _ppci():
         if p not in sys.path:
             sys.path.insert(0, p)
     import c02_gen
+    import logging
+    logging.disable(logging.WARNING)          # the ir verifier logs a warning for every use of Undefined
     from ppci import ir, api
     from ppci.irutils import verify_module, print_module
     classes = {}
@@ -173,11 +176,13 @@ class Transform:
         self.name = '+'.join(what) if kind == 'pass' else 'optimize(level=%s)' % what
 
     def apply(self, m, classes, api):
-        if self.kind == 'pass':
-            for n in self.what:
-                classes[n]().run(m)
-        else:
-            api.optimize(m, level=self.what)
+        import contextlib
+        with contextlib.redirect_stdout(io.StringIO()):      # verify_module prints warnings
+            if self.kind == 'pass':
+                for n in self.what:
+                    classes[n]().run(m)
+            else:
+                api.optimize(m, level=self.what)
 
 
 def trunc_rem(a, b):
@@ -645,7 +650,7 @@ def run(ctx):
     thorough = (not ctx.quick()) or bool(ctx.failed_stages)
     if ok:
         validator_cases(ctx, 12 if ctx.quick() else 60, ctx.seed * 1000 + 500000)
-    differential(ctx, 100 if not thorough else 2000, thorough, ctx.seed * 1000)
+    differential(ctx, 150 if not thorough else 2000, thorough, ctx.seed * 1000)
     ctx.cov['exhaustive'] = False
 
 
